@@ -287,15 +287,31 @@ mod verif_in_context {
     fn out(i: usize) -> u8 {
         OUT[i].load(Ordering::Relaxed)
     }
+    /// transport behaviour: 0 = accepts every write at once; 1 = answers Pending once, then
+    /// accepts; 2 = fails every write with BrokenPipe
+    static TX_MODE: core::sync::atomic::AtomicU8 = core::sync::atomic::AtomicU8::new(0);
+    static TX_PENDINGS: core::sync::atomic::AtomicUsize = core::sync::atomic::AtomicUsize::new(0);
     pub(crate) struct VecTx;
     impl VecTx {
         fn new() -> VecTx {
             OUT_N.store(0, Ordering::Relaxed);
+            TX_MODE.store(0, Ordering::Relaxed);
+            TX_PENDINGS.store(0, Ordering::Relaxed);
             VecTx
         }
     }
     impl AsyncWrite for VecTx {
         fn poll_write(self: core::pin::Pin<&mut Self>, _cx: &mut core::task::Context<'_>, buf: &[u8]) -> core::task::Poll<std::io::Result<usize>> {
+            match TX_MODE.load(Ordering::Relaxed) {
+                1 => {
+                    // Pending once (a real transport registers the waker here), then ready
+                    TX_MODE.store(0, Ordering::Relaxed);
+                    TX_PENDINGS.store(TX_PENDINGS.load(Ordering::Relaxed) + 1, Ordering::Relaxed);
+                    return core::task::Poll::Pending;
+                }
+                2 => return core::task::Poll::Ready(Err(std::io::Error::from(std::io::ErrorKind::BrokenPipe))),
+                _ => {}
+            }
             let mut i = 0;
             while i < buf.len() {
                 let k = OUT_N.load(Ordering::Relaxed);
@@ -397,7 +413,7 @@ mod verif_in_context {
     /// kind: 1 = PUBLISH QoS 1, 2 = PUBLISH QoS 2, 3 = PUBREL, 4 = UNSUBSCRIBE-like AwaitAck,
     /// 5 = PINGREQ AwaitAck, 6 = FireAndForget (QoS 0 PUBLISH), 7 = FireAndForget (DISCONNECT),
     /// 8 = Subscribe
-    fn step_msg_body(kind: u8, cancelled: bool) {
+    fn step_msg_body(kind: u8, cancelled: bool, mode: u8) {
         let mut cx = task_cx();
         let mut tx = TxPacketStream::from(VecTx::new());
         let r: u16 = kani::any();
@@ -463,13 +479,41 @@ mod verif_in_context {
             6 | 7 => ContextMessage::FireAndForget(FireAndForget { packet, response_channel: sf }),
             _ => ContextMessage::Subscribe(Subscribe { action_id: aid, subscription_identifier: sub_id, packet, response_channel: sa, stream: st }),
         };
-        {
+        let refused = too_large || ((kind == 1 || kind == 2) && q == 0);
+        kani::cover!(!refused && mps.is_some(), "accepted with a Maximum Packet Size announced");
+        kani::cover!(!refused && mps == Some(len as u32), "accepted at exactly L == M");
+        TX_MODE.store(mode, Ordering::Relaxed);
+        let res = {
             let mut f = core::pin::pin!(CtxV::handle_message(&mut tx, &mut connection, &mut session, msg));
-            match core::future::Future::poll(f.as_mut(), &mut cx) {
-                core::task::Poll::Ready(Ok(())) => {}
-                _ => panic!("the step completes with Ok when the transport accepts the bytes, whether or not the caller is still there"),
+            let mut p = core::future::Future::poll(f.as_mut(), &mut cx);
+            if p.is_pending() {
+                assert!(mode == 1 && !refused && TX_PENDINGS.load(Ordering::Relaxed) == 1, "the step is Pending only because the transport answered Pending (its waker is registered there)");
+                assert!(out_n() == 0, "nothing reached the wire yet");
+                // the transport is ready now; polling again finishes the step, writing the packet once
+                p = core::future::Future::poll(f.as_mut(), &mut cx);
+                kani::cover!(true, "opt: completed on the second poll after a Pending transport");
             }
+            match p {
+                core::task::Poll::Ready(x) => x,
+                core::task::Poll::Pending => panic!("the step completes once the transport accepts the bytes"),
+            }
+        };
+        if mode == 2 && !refused {
+            match &res {
+                Err(MqttError::SocketClosed(_)) => {}
+                _ => panic!("a write error ends the step with SocketClosed"),
+            }
+            kani::cover!(true, "opt: write error reported");
+            core::mem::forget(res);
+            core::mem::forget(session);
+            core::mem::forget(rcv0);
+            core::mem::forget(ra);
+            core::mem::forget(rf);
+            core::mem::forget(rt);
+            return;
         }
+        assert!(res.is_ok(), "the step completes with Ok when the transport accepts the bytes, whether or not the caller is still there");
+        core::mem::forget(res);
         assert!(connection.remote_receive_maximum == r && connection.remote_max_packet_size == mps, "the limits announced by the server are not touched");
         assert!(session.awaiting_ack[0].0 == 0x0400_0100 && matches!(rcv0.try_recv(), Ok(None)), "an earlier waiter stays registered, first in line, and is not completed");
         assert!(session.retrasmit_queue[0].0 == 0x0400_0100 && session.retrasmit_queue[0].1.len() == 4, "an earlier retransmit entry stays, first in line");
@@ -533,8 +577,6 @@ mod verif_in_context {
             }
             assert!(session.subscriptions.len() == if kind == 8 { 1 } else { 0 }, "stream registrations only for subscribe");
             kani::cover!(quota_limited && q == 1, "opt: last quota slot taken");
-            kani::cover!(mps.is_some(), "accepted with a Maximum Packet Size announced");
-            kani::cover!(mps == Some(len as u32), "accepted at exactly L == M");
         }
         core::mem::forget(session);
         core::mem::forget(rcv0);
@@ -545,13 +587,16 @@ mod verif_in_context {
 
     macro_rules! step_msg {
         ($name:ident, $kind:expr) => {
-            step_msg!($name, $kind, false);
+            step_msg!($name, $kind, false, 0);
         };
         ($name:ident, $kind:expr, $cancelled:expr) => {
+            step_msg!($name, $kind, $cancelled, 0);
+        };
+        ($name:ident, $kind:expr, $cancelled:expr, $mode:expr) => {
             #[kani::proof]
             #[kani::unwind(12)]
             pub(crate) fn $name() {
-                step_msg_body($kind, $cancelled);
+                step_msg_body($kind, $cancelled, $mode);
             }
         };
     }
@@ -584,6 +629,24 @@ mod verif_in_context {
     step_msg!(step_msg_publish_q1_cancelled, 1, true);
     step_msg!(step_msg_publish_q0_cancelled, 6, true);
     step_msg!(step_msg_subscribe_cancelled, 8, true);
+
+    //@ h name=step_msg_publish_q1_pending props=C16,C01,C10 tier=off cap=small to=1200 mem=40
+    //@ h name=step_msg_subscribe_pending props=C16,C01 tier=thorough cap=small to=1200
+    //@ h name=step_msg_publish_q0_pending props=C16,C01 tier=quick cap=small to=1200
+    //@ claim: the same handle_message step against a transport that first answers Pending: the step returns Pending only because the transport did (whose waker is then registered), nothing has reached the wire at that point, and the next poll completes it with exactly the same result as an undelayed step: the packet on the wire exactly once and whole, one quota slot, one waiter, one retransmit entry
+    //@ bounds: as step_msg_*; one Pending answer, then every write accepted at once
+    //@ funcs: Context::handle_message, TxPacketStream::write
+    step_msg!(step_msg_publish_q1_pending, 1, false, 1);
+    step_msg!(step_msg_subscribe_pending, 8, false, 1);
+    step_msg!(step_msg_publish_q0_pending, 6, false, 1);
+
+    //@ h name=step_msg_publish_q1_wrerr props=C04,C13 tier=quick cap=small to=1200
+    //@ h name=step_msg_disconnect_wrerr props=C04,C13 tier=thorough cap=small to=1200
+    //@ claim: the same handle_message step against a transport whose write fails: no panic; a refused request is still answered locally (Ok), anything that reaches the transport ends the step with MqttError::SocketClosed
+    //@ bounds: as step_msg_*; every write fails with BrokenPipe
+    //@ funcs: Context::handle_message, TxPacketStream::write, From<io::Error> for MqttError
+    step_msg!(step_msg_publish_q1_wrerr, 1, false, 2);
+    step_msg!(step_msg_disconnect_wrerr, 7, false, 2);
 
     // ------------------------------------------------------------------ probes: handle_packet
     fn fresh_state(r: u16, q: u16) -> (Connection, Session) {
